@@ -72,6 +72,8 @@ def gen_universe(rng, uid, profile):
             r = rng.random()
             if not c or r < profile.get("p_vs_empty", 0.08):
                 m = []
+            elif profile.get("p_narrow") and r < profile["p_narrow"]:
+                m = sorted(rng.sample(c, min(len(c), rng.choice([1, 1, 2]))))
             elif r < 0.45:
                 m = sorted(c)
             else:
@@ -160,6 +162,10 @@ FAMILIES = {
     # deeper conflicts: more packages, every solvable has requirements and constrains -> learning and backjumping
     "hard": dict(max_pkg=8, min_pkg=5, max_cand=3, p_favored=0.1, p_union=0.1, p_vs_empty=0.02, max_vs=4,
                  n_req=[1, 2, 2, 3], n_con=[0, 1, 1, 2], n_root_req=[2, 3, 4], n_root_con=[0, 1]),
+    # dense in conflicts: narrow version sets, two requirements and one or two constrains per solvable -> long searches,
+    # learnt clauses with three and more literals, backjumps over several levels, watches that move repeatedly
+    "dense": dict(max_pkg=7, min_pkg=5, max_cand=4, p_vs_empty=0.0, max_vs=6, p_favored=0.05, p_union=0.15, p_narrow=0.55,
+                  n_req=[1, 2, 2, 3], n_con=[0, 1, 1], n_root_req=[2, 3], n_root_con=[0, 0, 1]),
     # layered: requirements go to later packages, constrains back to earlier ones -> many decision levels, conflicts found
     # deep, learnt clauses spanning several levels, backjumps over more than one level
     "deep": dict(max_pkg=12, min_pkg=8, max_cand=3, layered=True, p_vs_empty=0.0, max_vs=4, p_favored=0.1,
